@@ -18,9 +18,9 @@ from .histlib import HistGen, run_scripts
 FIELDS = ("ctx", "tree_bytes", "auth", "exp", "cth", "tree_hash", "ext")
 
 
-def gen(rng, i, quick):
-    suite = [1, 2, 3][i % 3]
-    provs = [["openssl", "awslc", "rustcrypto"], ["openssl", "rustcrypto"], ["awslc", "rustcrypto"], ["openssl", "awslc"]][i % 4]
+def gen(rng, i, quick, suite=None, provs=None):
+    suite = suite or [1, 2, 3][i % 3]
+    provs = provs or [["openssl", "awslc", "rustcrypto"], ["openssl", "rustcrypto"], ["awslc", "rustcrypto"], ["openssl", "awslc"]][i % 4]
     g = HistGen(rng, n_pool=rng.choice([6, 9, 12]) if quick else rng.choice([6, 9, 12, 18]), name=f"c01-{i}", suite=suite, providers=provs, storage="mem")
     g.start()
     ops = g.ops
@@ -135,23 +135,8 @@ def gen(rng, i, quick):
     return g.script(), {"marks": marks, "kinds": kinds, "talk": talk, "final_members": list(g.in_group), "suite": suite, "providers": provs}
 
 
-def main(run, args):
-    rng = Rng(run.seed)
-    run.assumptions += [
-        "the derivation function of path secrets is abstract in the chain theorem (any function); the concrete HKDF label derivation is C13's subject",
-        "members are compared on what the public API exposes (context, exported tree, roster, epoch authenticator, one exported secret) plus mutual decryption",
-    ]
-    broken = []
-    proofs_ok, log = prove(run, "C01", extra_targets=[])
-    if not proofs_ok:
-        broken.append(("proof", "Props/C01.v does not check; " + "; ".join(run.notes[-1:])))
-    hok, herr = build_harness()
-    if not hok:
-        run.violation("harness build failed", herr, failing_input_found=False)
-        return
-    quick = run.tier == "quick"
-    items = [gen(rng, i, quick) for i in range(24 if quick else 240)]
-    recs = run_scripts([x[0] for x in items], timeout=3000)
+def judge(items, recs):
+    """Agreement oracle over finished histories: (failing, stats)."""
     failing = []
     stats = {"commits": 0, "member_comparisons": 0, "cross_decryptions": 0, "max_members": 0, "interior_blank_epochs": 0, "kinds": {}, "suites": {}, "provider_mixes": {}}
     for (sc, meta), rs in zip(items, recs):
@@ -206,6 +191,27 @@ def main(run, args):
                     failing.append({"what": "a member's epoch did not advance by exactly one", "script": sc["name"], "member": n, "from": prev_epoch[n], "to": o["epoch"]})
                 prev_epoch[n] = o["epoch"]
         stats["cross_decryptions"] += len(meta["talk"])
+    return failing, stats
+
+
+def main(run, args):
+    rng = Rng(run.seed)
+    run.assumptions += [
+        "the derivation function of path secrets is abstract in the chain theorem (any function); the concrete HKDF label derivation is C13's subject",
+        "members are compared on what the public API exposes (context, exported tree, roster, epoch authenticator, one exported secret) plus mutual decryption",
+    ]
+    broken = []
+    proofs_ok, log = prove(run, "C01", extra_targets=[])
+    if not proofs_ok:
+        broken.append(("proof", "Props/C01.v does not check; " + "; ".join(run.notes[-1:])))
+    hok, herr = build_harness()
+    if not hok:
+        run.violation("harness build failed", herr, failing_input_found=False)
+        return
+    quick = run.tier == "quick"
+    items = [gen(rng, i, quick) for i in range(24 if quick else 240)]
+    recs = run_scripts([x[0] for x in items], timeout=3000)
+    failing, stats = judge(items, recs)
     run.obligation("all members agree after every commit of every history; epoch +1; all-to-all decryption", not failing and stats["member_comparisons"] > 0)
     if stats["interior_blank_epochs"] < 5 or len(stats["kinds"]) < 8:
         broken.append(("generator", f"degenerate histories: {stats}"))
